@@ -430,11 +430,18 @@ func evTerm(m pubMsg, createData *[]string, kinds map[string]int) string {
 	return "(" + B(rid) + "," + t + ")"
 }
 
-// ---------------------------------------------------------------- the transformer used by the harness
-// (user code from go-res' point of view).  Depends only on the JSON of the value:
+// ---------------------------------------------------------------- the transformers used by the harness
+// (user code from go-res' point of view).  Both are visibly NOT the identity and depend only on
+// the JSON of the value:
 //   collection: error (ErrNotFound) if an element is the string "!hide"; elements equal to the
-//               string "_" are dropped;
-//   model:      error if it has the key "deleted"; keys starting with '_' are dropped.
+//               string "_" are dropped; the string "T" is put in front;
+//   model:      error if it has the key "deleted"; keys starting with '_' are dropped; the
+//               property "~t":"T" is added.
+// transformFn accepts any Go value that marshals to a JSON array/object.
+// strictTransformFn only accepts the Go types the harness stores under a strict configuration
+// ([]interface{}, []store.Value, map[string]interface{}, map[string]store.Value) and returns an
+// error for everything else - in particular for a json.RawMessage such as the handler's Default,
+// which is documented as pre-transformed and must never be handed to Transform.
 func transformFn(id string, v interface{}) (interface{}, error) {
 	raw, err := json.Marshal(v)
 	if err != nil {
@@ -446,7 +453,8 @@ func transformFn(id string, v interface{}) (interface{}, error) {
 		if err := json.Unmarshal(raw, &l); err != nil {
 			return nil, err
 		}
-		out := make([]json.RawMessage, 0, len(l))
+		out := make([]json.RawMessage, 0, len(l)+1)
+		out = append(out, json.RawMessage(`"T"`))
 		for _, x := range l {
 			switch string(x) {
 			case `"!hide"`:
@@ -470,16 +478,29 @@ func transformFn(id string, v interface{}) (interface{}, error) {
 				delete(o, k)
 			}
 		}
+		o["~t"] = json.RawMessage(`"T"`)
 		return o, nil
 	}
 	return nil, store.ErrNotFound
 }
 
+var errWrongType = errors.New("transform: unexpected Go type of stored value")
+
+func strictTransformFn(id string, v interface{}) (interface{}, error) {
+	switch v.(type) {
+	case []interface{}, []store.Value, map[string]interface{}, map[string]store.Value:
+		return transformFn(id, v)
+	}
+	return nil, errWrongType
+}
+
 // ---------------------------------------------------------------- service under test
 
 type hcfg struct {
-	coll, trans, def bool
-	name             string // m0..m3, c0..c3
+	coll, def bool
+	trans     int    // 0 none, 1 transformFn, 2 strictTransformFn
+	name      string // m0..m5, c0..c5
+	tf        func(id string, v interface{}) (interface{}, error)
 	st               *mockstore.Store
 	defGo            interface{}
 }
@@ -489,11 +510,13 @@ func (h *hcfg) rid(key string) string {
 	return h.prefix() + key
 }
 func (h *hcfg) id(key string) string {
-	if h.trans {
+	if h.trans != 0 {
 		return key
 	}
 	return h.prefix() + key
 }
+
+const nCfg = 6
 
 type world struct {
 	s          *res.Service
@@ -509,11 +532,21 @@ func newWorld() *world {
 	s := res.NewService("test")
 	s.SetLogger(w.log)
 	for _, coll := range []bool{false, true} {
-		for k := 0; k < 4; k++ {
-			h := &hcfg{coll: coll, trans: k&1 == 1, def: k&2 == 2, st: mockstore.NewStore()}
+		for k := 0; k < nCfg; k++ {
+			// 0..3: bit0 = transformFn, bit1 = Default; 4 = strict transformer, 5 = strict transformer + Default
+			h := &hcfg{coll: coll, trans: k & 1, def: k&2 == 2, st: mockstore.NewStore()}
+			if k >= 4 {
+				h.trans, h.def = 2, k == 5
+			}
 			sh := store.Handler{Store: h.st}
-			if h.trans {
-				sh.Transformer = store.IDTransformer("id", transformFn)
+			switch h.trans {
+			case 1:
+				h.tf = transformFn
+			case 2:
+				h.tf = strictTransformFn
+			}
+			if h.trans != 0 {
+				sh.Transformer = store.IDTransformer("id", h.tf)
 			}
 			var typ res.Option = res.Model
 			h.name = fmt.Sprintf("m%d", k)
@@ -573,7 +606,7 @@ type opDesc struct {
 	Val *valDesc `json:"val,omitempty"`
 }
 type caseDesc struct {
-	Cfg  string   `json:"cfg"` // m0..m3 / c0..c3: bit0 transformer, bit1 default
+	Cfg  string   `json:"cfg"` // m0..m3 / c0..c3: bit0 transformer, bit1 default; 4 strict transformer, 5 strict transformer + default
 	Key  string   `json:"key"`
 	Init *valDesc `json:"init,omitempty"`
 	Ops  []opDesc `json:"ops"`
@@ -595,23 +628,39 @@ func safely(f func()) (p interface{}) {
 	return nil
 }
 
+// noRawShape replaces the json.RawMessage shape by natural Go values.
+func noRawShape(d *caseDesc) {
+	fix := func(v *valDesc) {
+		if v != nil && v.Shape == 2 {
+			v.Shape = 0
+		}
+	}
+	fix(d.Init)
+	for i := range d.Ops {
+		fix(d.Ops[i].Val)
+	}
+}
+
 func (w *world) run(d caseDesc, dist map[string]int) Case {
 	h := w.cfgByName(d.Cfg)
 	id, rid := h.id(d.Key), h.rid(d.Key)
 	var c Case
 	c.Desc = d
 	c.Tags = []string{d.Cfg}
-	if h.trans {
+	if h.trans != 0 {
 		c.Tags = append(c.Tags, "transformer")
+	}
+	if h.trans == 2 {
+		c.Tags = append(c.Tags, "strict-transformer")
 	}
 	if h.def {
 		c.Tags = append(c.Tags, "default")
 	}
 	tOf := func(v interface{}) string {
-		if !h.trans {
+		if h.trans == 0 {
 			return "None"
 		}
-		tv, err := transformFn(id, v)
+		tv, err := h.tf(id, v)
 		if err != nil {
 			dist["transform_error"]++
 			return "None"
@@ -714,7 +763,7 @@ func (w *world) run(d caseDesc, dist map[string]int) Case {
 	if h.def {
 		defT = optRvOfGo(h.defGo)
 	}
-	c.Term = fmt.Sprintf("HC %s %s %s %s %s %s %s %s\n %s", Bool(h.coll), Bool(h.trans), defT, B(h.prefix()), B(id),
+	c.Term = fmt.Sprintf("HC %s %s %s %s %s %s %s %s\n %s", Bool(h.coll), Bool(h.trans != 0), defT, B(h.prefix()), B(id),
 		initT, tinitT, g0, List(steps))
 	c.Nontrivial = evTotal > 0
 	return c
@@ -919,6 +968,9 @@ func main() {
 		if d.Key == "" {
 			d.Key = fmt.Sprintf("k%d", nkey)
 		}
+		if o.Replay == "" && w.cfgByName(d.Cfg).trans == 2 {
+			noRawShape(&d)
+		}
 		c := w.run(d, dist)
 		dist["case_"+d.Kind]++
 		dist["cfg_"+d.Cfg]++
@@ -944,7 +996,7 @@ func main() {
 		k := 0
 		for _, a := range lists {
 			for _, b := range lists {
-				cfg := fmt.Sprintf("c%d", k%4)
+				cfg := fmt.Sprintf("c%d", k%nCfg)
 				k++
 				add(caseDesc{Cfg: cfg, Kind: "exhaustive_collection_pair",
 					Init: &valDesc{Els: a}, Ops: []opDesc{{Op: "update", Val: &valDesc{Els: b}}}})
@@ -966,7 +1018,7 @@ func main() {
 		}
 		for _, a := range models {
 			for _, b := range models {
-				cfg := fmt.Sprintf("m%d", k%4)
+				cfg := fmt.Sprintf("m%d", k%nCfg)
 				k++
 				add(caseDesc{Cfg: cfg, Kind: "exhaustive_model_pair", Init: a, Ops: []opDesc{{Op: "update", Val: b}}})
 			}
@@ -989,6 +1041,27 @@ func main() {
 			add(caseDesc{Cfg: h.name, Kind: "corner", Init: v1, Ops: []opDesc{{"update", hid}, {"update", v2}, {"update", hid}, {"delete", nil}, {"create", hid}, {"update", v1}}})
 			add(caseDesc{Cfg: h.name, Kind: "corner", Init: v1, Ops: []opDesc{{"update", sam}, {"update", v1}, {"delete", nil}, {"create", dfl}, {"delete", nil}, {"update", v1}}})
 		}
+		// (c') the entry of a default-backed resource is created, updated, deleted, re-created ...
+		//      (every configuration; the interesting ones are Transformer + Default)
+		for _, h := range w.cfgs {
+			for shape := 0; shape < 2; shape++ {
+				mk := func(keys []string, els ...el) *valDesc {
+					if h.coll {
+						keys = nil
+					}
+					return &valDesc{Keys: keys, Els: els, Shape: shape}
+				}
+				x1 := mk([]string{"a", "d"}, el{"p", "1"}, el{"p", `"def"`})
+				x2 := mk([]string{"a", "b"}, el{"p", "2"}, el{"r", "test.x"})
+				x3 := mk([]string{"d", "_h", "c"}, el{"p", `"def"`}, el{"p", `"_"`}, el{"p", "3"})
+				x4 := mk(nil)
+				add(caseDesc{Cfg: h.name, Kind: "default_backed", Ops: []opDesc{
+					{"create", x1}, {"update", x2}, {"delete", nil}, {"create", x2}, {"update", x3}, {"update", x1},
+					{"delete", nil}, {"create", x4}, {"delete", nil}}})
+				add(caseDesc{Cfg: h.name, Kind: "default_backed", Init: x2, Ops: []opDesc{
+					{"delete", nil}, {"create", x3}, {"update", x4}, {"update", x2}, {"delete", nil}, {"update", x1}, {"create", x1}}})
+			}
+		}
 		// (d) random histories
 		n := 560
 		maxEl := 12
@@ -1009,9 +1082,10 @@ func main() {
 	}
 	w.close()
 	Emit(o, "C10", "From GoRes Require Import Run.Run_C10.", "hcase",
-		"real res.Service + mockstore + store.Handler in 8 configurations (model|collection x +-Transformer x +-Default); "+
+		"real res.Service + mockstore + store.Handler in 12 configurations (model|collection x {no Transformer, non-identity Transformer accepting any value, "+
+			"non-identity Transformer that rejects every Go type but the stored ones (e.g. the json.RawMessage Default)} x +-Default); "+
 			"ALL ordered pairs of collections of length <= 3 (quick) / <= 4 (thorough) over {1,2,3} as store content a then Update(b); "+
-			"all pairs of models over 2 keys x {absent,1,2}; corner histories (create/delete/default/transform error) per configuration; "+
+			"all pairs of models over 2 keys x {absent,1,2}; corner histories (create/delete/default/transform error; create-update-delete-recreate of the entry of a default-backed resource) per configuration; "+
 			"random histories of 1-10 write transactions (Create/Update/Delete incl. failing ones) over models and collections of up to 12 "+
 			"primitives, references, soft references and data values, each value derived from the previous by insert/delete/replace/swap/move/duplicate "+
 			"edits, stored as natural Go values, []store.Value/map[string]store.Value or json.RawMessage; non-trivial = at least one event was published; "+
